@@ -14,7 +14,7 @@ from .fitworld import frac
 from . import c02
 
 
-def replay_group(key, behs, root):
+def replay_group(key, behs, root, pid='X02'):
     from astropy import units as u
     col = Collector()
     b0 = behs[0]
@@ -23,14 +23,14 @@ def replay_group(key, behs, root):
             d, ft, dist, names = c02.build_world(root, b0['cube'], b0['K'], 0, 40, 3, 0, fmt, False, 10, theta=[1.0, 2.0],
                                                  rc=[['knot'] * 3, ['knot'] * 3], d0=0.001, remove_resolved=True)
         except Exception as e:
-            col.violation('X02:load_raised:%s' % type(e).__name__, 'Fitter(remove_resolved=True) on a %s package raised %r' % (fmt, e), {'cfg': b0['cfg']})
+            col.violation('%s:load_raised:%s' % (pid, type(e).__name__), 'Fitter(remove_resolved=True) on a %s package raised %r' % (fmt, e), {'cfg': b0['cfg']})
             continue
         try:
             ext = np.asarray(ft.models.extended)
             want = np.array(b0['ext'], dtype=bool)
             col.replayed += 1
             if ext.shape != want.shape or not np.array_equal(ext, want):
-                col.violation('X02:extended', '%s package: extended flags %r, spec %r' % (fmt, ext.tolist(), want.tolist()), {'cfg': b0['cfg'], 'cube': b0['cube']})
+                col.violation('%s:extended' % pid, '%s package: extended flags %r, spec %r' % (fmt, ext.tolist(), want.tolist()), {'cfg': b0['cfg'], 'cube': b0['cube']})
                 continue
             for b in behs:
                 info = ft.fit(fw.make_source(b['src']))
@@ -54,6 +54,9 @@ def replay_group(key, behs, root):
                         bad = '%s reported at distance index %d, spec admits %r (allowed %r)' % (nm_, di + 1, row['best'], row['allowed'])
                     elif not fw.fclose(av, float(frac(f['u'])) / 4.0, 1e-7, 1e-7) or not fw.fclose(chi, wchi, 1e-7, 1e-6):
                         bad = '%s: av %r chi2 %r, spec %r %r' % (nm_, av, chi, float(frac(f['u'])) / 4.0, wchi)
+                    elif obs['pred'] is not None and any(not fw.fclose(obs['pred'][i_][j], float(frac(f['pred20'][j])) / 20.0, 1e-7, 1e-7) for j in range(2)):
+                        bad = '%s: predicted log fluxes %r, spec %r at the reported distance %g pc' % (
+                            nm_, obs['pred'][i_], [float(frac(x)) / 20.0 for x in f['pred20']], dist[di] * 1000)
                     if bad:
                         break
                 # infinite chi^2 rank last
@@ -61,11 +64,25 @@ def replay_group(key, behs, root):
                 if not bad and any(math.isinf(fin[k]) and not math.isinf(fin[k + 1]) for k in range(len(fin) - 1)):
                     bad = 'an infinite chi2 is ranked before a finite one: %r' % fin
                 if bad:
-                    col.violation('X02:fit', '%s package: %s' % (fmt, bad), {'cfg': b['cfg'], 'src': b['src'], 'rows': b['rows'], 'observed': obs})
+                    col.violation('%s:resolved_fit' % pid if pid != 'X02' else 'X02:fit', '%s package: %s' % (fmt, bad), {'cfg': b['cfg'], 'src': b['src'], 'rows': b['rows'], 'observed': obs})
                     break
         finally:
             shutil.rmtree(d, ignore_errors=True)
     return col
+
+
+def stage(ctx, pid):
+    """remove_resolved (the only source of infinite chi^2) for a listed property: small instance of MC_Resolved"""
+    res = model_check(ctx, 'MC_Resolved', 'MC_Resolved_small.cfg', timeout=900, coverage=False)
+    em = [b for b in res['emitted'] if isinstance(b, dict) and 'ext' in b]
+    groups = {}
+    for b in em:
+        groups.setdefault((b['cfg']['c'], b['cfg']['k']), []).append(b)
+    root = ctx.mkdtemp('rr_%s' % pid)
+    for cols in pmap(lambda ch: [replay_group(k, bs, root, pid=pid) for k, bs in ch], sorted(groups.items()), chunks_per_proc=1):
+        for col in cols:
+            col.merge_into(ctx)
+    ctx.notes['remove_resolved_behaviours'] = len(em)
 
 
 def run(ctx):
